@@ -99,7 +99,7 @@ impl CharScorer {
         let no_tag_ngrams = tag_ngram_model.iter().all(|m| m.0.is_empty());
         #[cfg(not(feature = "tag-prediction"))]
         let no_tag_ngrams = true;
-        if ngram_model.0.is_empty() && dict_model.0.is_empty() && no_tag_ngrams || window_size == 0 {
+        if ngram_model.0.is_empty() && dict_model.0.is_empty() && no_tag_ngrams {
             return Ok(None);
         }
 
